@@ -1,6 +1,8 @@
 package main
 
 import (
+	"fmt"
+	"os"
 	"regexp"
 	"strings"
 )
@@ -14,14 +16,39 @@ import (
 //	swamp.applyPatchMeta                    ClearExpiredAt → zero time, else SetExpiredAt when not zero
 //	swamp.CloneAndDeleteMatchingTreasures   build, GetBeacon, ShiftMatching, deleteHandler each
 //	beacon.ShiftMatching                    walks treasuresByOrder in order, first howMany matches
-var c07HookRe = regexp.MustCompile(`if verifhook\.Enabled \{ [^{}]* \}`)
+//
+// c07StripHooks removes every `if verifhook.Enabled { … }` block (balanced braces) from rendered source.
+func c07StripHooks(s string) string {
+	const open = "if verifhook.Enabled {"
+	for {
+		i := strings.Index(s, open)
+		if i < 0 {
+			return s
+		}
+		depth, j := 0, i+len(open)-1
+		for ; j < len(s); j++ {
+			if s[j] == '{' {
+				depth++
+			} else if s[j] == '}' {
+				depth--
+				if depth == 0 {
+					break
+				}
+			}
+		}
+		if j >= len(s) {
+			return s
+		}
+		s = s[:i] + s[j+1:]
+	}
+}
 
 func c07Body(f *File, recv, fn string) string {
 	fd := f.Func(recv, fn)
 	if fd == nil {
 		return ""
 	}
-	return strings.Join(strings.Fields(c07HookRe.ReplaceAllString(f.Str(fd.Body), "")), " ")
+	return strings.Join(strings.Fields(c07StripHooks(f.Str(fd.Body))), " ")
 }
 
 // inOrder: every part occurs in s, each after the previous one
@@ -30,6 +57,9 @@ func c07InOrder(s string, parts ...string) bool {
 	for _, p := range parts {
 		i := strings.Index(s[at:], p)
 		if i < 0 {
+			if os.Getenv("EXTRACT_WHY") != "" {
+				fmt.Fprintf(os.Stderr, "shape: part not found (in order): %s\n   in: %.300s\n", p, s)
+			}
 			return false
 		}
 		at += i + len(p)
@@ -51,7 +81,7 @@ func c07Claim(fs *Facts) {
 	body := c07Body(fpe, "swamp", "PatchExpired")
 	shape := c07InOrder(body,
 		"s.buildBeacon(s.expirationTimeBeaconASC, s.expirationTimeBeaconDESC, BeaconTypeExpirationTime)",
-		"selected, capReached := s.expirationTimeBeaconASC.SelectExpiredForPatchWithCap(int(howMany), selectionPredicate, capPredicate, int(capMax))",
+		"selected, capReached := s.expirationTimeBeaconASC.SelectExpiredForPatchWithCap(int(howMany), selectionPredicate, capPredicate, ",
 		"for _, t := range selected { s.deleteTreasureIfBeaconInitialized(s.expirationTimeBeaconDESC, t.GetKey()) }",
 		"for _, treasureObj := range selected { entry := s.applyPatchExpiredOne(treasureObj, ops, condition, meta) results = append(results, entry) }",
 		"s.expirationTimeBeaconASC.ReindexExpiration(",
@@ -101,14 +131,32 @@ func c07Claim(fs *Facts) {
 	if fsw, err := Load(c07Swamp); err != nil {
 		std = false
 	} else {
-		std = std && c07InOrder(c07Body(fsw, "swamp", "CloneAndDeleteMatchingTreasures"),
+		cdm := c07Body(fsw, "swamp", "CloneAndDeleteMatchingTreasures")
+		// every shifted record is deleted: directly, or re-validated with the same predicate under its guard
+		// (sequentially the record is unchanged, so the claim goes through)
+		std = std && (strings.Contains(cdm, "for _, d := range shiftedTreasures { s.deleteHandler(d.GetKey(), false) }") ||
+			strings.Contains(cdm, "for _, d := range shiftedTreasures { if _, fresh := s.deleteHandlerIf(d.GetKey(), false, predicate); fresh != nil { claimedTreasures = append(claimedTreasures, fresh) } }"))
+		std = std && c07InOrder(cdm,
 			"case BeaconTypeCreationTime: s.buildBeacon(s.creationTimeBeaconASC, s.creationTimeBeaconDESC, BeaconTypeCreationTime)",
 			"case BeaconTypeExpirationTime: s.buildBeacon(s.expirationTimeBeaconASC, s.expirationTimeBeaconDESC, BeaconTypeExpirationTime)",
 			"case BeaconTypeUpdateTime: s.buildBeacon(s.updateTimeBeaconASC, s.updateTimeBeaconDESC, BeaconTypeUpdateTime)",
 			"case BeaconTypeKey: s.buildBeacon(s.keyBeaconASC, s.keyBeaconDESC, BeaconTypeKey)",
 			"bcn := s.GetBeacon(beaconType, order)",
-			"shiftedTreasures, capReached := bcn.ShiftMatching(int(howMany), predicate, capPredicate, int(capMax))",
-			"for _, d := range shiftedTreasures { s.deleteHandler(d.GetKey(), false) }")
+			"shiftedTreasures, capReached := bcn.ShiftMatching(int(howMany), predicate, capPredicate, int(capMax))")
 	}
-	fs.Tri("claimPathsStandard", TriOf(std && shape), where)
+	// deleteHandlerIf: a record that is not wanted any more goes back into the indexes the selection pass took it out of
+	if fsw, err := Load(c07Swamp); err == nil {
+		if dh := fsw.Func("swamp", "deleteHandlerIf"); dh != nil {
+			body := c07Body(fsw, "swamp", "deleteHandlerIf")
+			switch {
+			case strings.Contains(body, "if stillWanted != nil && !stillWanted(treasureObj) { s.addTreasureToBeacons(treasureObj) return nil, nil }"):
+				fs.Tri("claimLoserRefiled", Yes, c07At(c07Swamp, fsw, dh))
+			case strings.Contains(body, "if stillWanted != nil && !stillWanted(treasureObj) { return nil, nil }"):
+				fs.Tri("claimLoserRefiled", No, c07At(c07Swamp, fsw, dh))
+			}
+		}
+	}
+	if std && shape { // (a shape that is not found is "unknown", never "no")
+		fs.Tri("claimPathsStandard", Yes, where)
+	}
 }
